@@ -51,6 +51,23 @@ def corpus_recipes(pid):
     return out
 
 
+def adopt_float_slots(case, model):
+    """Statistics the implementation computes with numpy floats (means, percentiles, throughput) are
+    compared with the model's exact rational with relative tolerance 1e-9; where they agree the observed
+    answer adopts the model's rational, so that the exact comparison (X and K) covers everything else."""
+    slots = case.get('float_slots') or []
+    obs = case['obs']
+    if not slots or len(model) < len(obs):
+        return
+    # the encodings have equal length only if all optional fields agree; positions then coincide
+    for pos, val in slots:
+        if pos + 1 >= len(model) or model[pos + 1] <= 0:
+            continue
+        m = model[pos] / model[pos + 1]
+        if abs(m - val) <= 1e-9 * max(1.0, abs(m)) + 1e-12:
+            obs[pos], obs[pos + 1] = model[pos], model[pos + 1]
+
+
 def evaluate_cases(pid, cases, ctx, k_all_kinds=()):
     """Returns dict with mismatches (confirmed by K), counts."""
     res = dict(n=len(cases), x_mismatch=[], k_checked=0, k_mismatch=[], k_shards=0, answers={},
@@ -58,6 +75,8 @@ def evaluate_cases(pid, cases, ctx, k_all_kinds=()):
     if not cases:
         return res
     xs = C.run_x([(c['kind'], c['inp']) for c in cases])
+    for i, c in enumerate(cases):
+        adopt_float_slots(c, xs[i])
     xm = [i for i, c in enumerate(cases) if xs[i] != c['obs']]
     res['x_mismatch'] = xm
     for i in xm:
